@@ -302,3 +302,126 @@ func kindGuardedCall(x *Ctx, it Item) {
 	}
 	x.Printf("(* %s: every %s(n) call is guarded by `if n > 0` *)\nDefinition %s : bool := %s.\n\n", what, callee, coqName(it), v)
 }
+
+// errpred: the transport-error branch of a Predicate literal
+//
+//	if err != nil {
+//		if err, ok := err.(net.Error); ok && <cond over err.Timeout(), err.Temporary()> { return true, nil }
+//		...
+//		return false, err
+//	}
+//
+// -> Definition <coq> (is_net timeout temporary : bool) : bool := (is_net && <cond>) || ...
+// is_net: the error VALUE the base transport returned implements net.Error (a type assertion,
+// not errors.As: wrapped errors count only through what the wrapper's own methods report).
+func init() { kinds["errpred"] = kindErrPred }
+
+func errCond(e ast.Expr, v, what string) string {
+	switch x := e.(type) {
+	case *ast.ParenExpr:
+		return errCond(x.X, v, what)
+	case *ast.UnaryExpr:
+		if x.Op == token.NOT {
+			return "(negb " + errCond(x.X, v, what) + ")"
+		}
+	case *ast.BinaryExpr:
+		switch x.Op {
+		case token.LOR:
+			return "(" + errCond(x.X, v, what) + " || " + errCond(x.Y, v, what) + ")"
+		case token.LAND:
+			return "(" + errCond(x.X, v, what) + " && " + errCond(x.Y, v, what) + ")"
+		}
+	case *ast.CallExpr:
+		if sel, ok := x.Fun.(*ast.SelectorExpr); ok && len(x.Args) == 0 {
+			if id, ok := sel.X.(*ast.Ident); ok && id.Name == v {
+				switch sel.Sel.Name {
+				case "Timeout":
+					return "timeout"
+				case "Temporary":
+					return "temporary"
+				}
+			}
+		}
+	}
+	fail("%s: error condition has an unsupported shape", what)
+	return ""
+}
+
+func kindErrPred(x *Ctx, it Item) {
+	what := it.File + ":" + it.Name + " (error branch)"
+	e := findVarInit(x.File(it.File), it.Name)
+	fl, ok := e.(*ast.FuncLit)
+	if !ok || len(fl.Body.List) == 0 {
+		fail("%s: not a function literal", what)
+	}
+	ps := fl.Type.Params.List
+	if len(ps) != 2 || len(ps[1].Names) != 1 {
+		fail("%s: unexpected parameter list", what)
+	}
+	errName := ps[1].Names[0].Name
+	first, ok := fl.Body.List[0].(*ast.IfStmt)
+	if !ok || first.Init != nil || first.Else != nil {
+		fail("%s: first statement is not `if %s != nil`", what, errName)
+	}
+	body := first.Body.List
+	if len(body) == 0 {
+		fail("%s: empty error branch", what)
+	}
+	// last: return false, err
+	last, ok := body[len(body)-1].(*ast.ReturnStmt)
+	if !ok || len(last.Results) != 2 {
+		fail("%s: error branch does not end with `return false, %s`", what, errName)
+	}
+	if a, ok := last.Results[0].(*ast.Ident); !ok || a.Name != "false" {
+		fail("%s: error branch does not end with `return false, %s`", what, errName)
+	}
+	if a, ok := last.Results[1].(*ast.Ident); !ok || a.Name != errName {
+		fail("%s: error branch does not end with `return false, %s`", what, errName)
+	}
+	var conds []string
+	for _, s := range body[:len(body)-1] {
+		is, ok := s.(*ast.IfStmt)
+		if !ok || is.Else != nil || len(is.Body.List) != 1 || !isReturnBoolNil(is.Body.List[0], "true") {
+			fail("%s: statement is not `if v, ok := %s.(net.Error); ok && ... { return true, nil }`", what, errName)
+		}
+		as, ok := is.Init.(*ast.AssignStmt)
+		if !ok || as.Tok != token.DEFINE || len(as.Lhs) != 2 || len(as.Rhs) != 1 {
+			fail("%s: unsupported init statement", what)
+		}
+		v, ok1 := as.Lhs[0].(*ast.Ident)
+		okv, ok2 := as.Lhs[1].(*ast.Ident)
+		ta, ok3 := as.Rhs[0].(*ast.TypeAssertExpr)
+		if !ok1 || !ok2 || !ok3 {
+			fail("%s: unsupported init statement", what)
+		}
+		if id, ok := ta.X.(*ast.Ident); !ok || id.Name != errName {
+			fail("%s: type assertion is not on %s", what, errName)
+		}
+		if sel, ok := ta.Type.(*ast.SelectorExpr); !ok || sel.Sel.Name != "Error" {
+			fail("%s: type assertion is not to net.Error", what)
+		} else if pk, ok := sel.X.(*ast.Ident); !ok || pk.Name != "net" {
+			fail("%s: type assertion is not to net.Error", what)
+		}
+		// condition: ok && <cond>   (or just ok)
+		switch c := is.Cond.(type) {
+		case *ast.Ident:
+			if c.Name != okv.Name {
+				fail("%s: unsupported condition", what)
+			}
+			conds = append(conds, "is_net")
+		case *ast.BinaryExpr:
+			l, ok := c.X.(*ast.Ident)
+			if c.Op != token.LAND || !ok || l.Name != okv.Name {
+				fail("%s: condition is not `%s && ...`", what, okv.Name)
+			}
+			conds = append(conds, "(is_net && "+errCond(c.Y, v.Name, what)+")")
+		default:
+			fail("%s: unsupported condition", what)
+		}
+	}
+	if len(conds) == 0 {
+		conds = []string{"false"}
+	}
+	x.Printf("(* %s *)\n", what)
+	x.Printf("Definition %s (is_net timeout temporary : bool) : bool :=\n  %s.\n\n", coqName(it), strings.Join(conds, "\n  || "))
+}
